@@ -482,6 +482,33 @@ func (p c15) Run(w *mon.Worker, idx int) mon.Result {
 				}
 				res.Tags = append(res.Tags, "minmax")
 			}
+			// the same pool with nulls strewn in (a comparison with null answers false both ways): a non-null
+			// answer of min / max is still not beaten by any element of the pool
+			if len(els) >= 2 {
+				mixed := append([]c15El{}, els...)
+				for k := 0; k < 1+r.IntN(2); k++ {
+					pos := r.IntN(len(mixed) + 1)
+					mixed = append(mixed[:pos:pos], append([]c15El{{ref.NullV(), []string{"null", "~"}[r.IntN(2)]}}, mixed[pos:]...)...)
+				}
+				mdoc := c15Doc(mixed)
+				for _, fn := range []string{"min", "max"} {
+					rs, err := c15Eval(fn, mdoc)
+					res.Evals++
+					if err != nil || len(rs) != 1 {
+						return fail("`%s` failed on %s: %v", fn, mdoc, err)
+					}
+					if rs[0].K == ref.Null {
+						continue
+					}
+					for _, e := range els {
+						c, _ := ref.Cmp(rs[0], e.v)
+						if (fn == "min" && c > 0) || (fn == "max" && c < 0) {
+							return fail("`%s` of %s is %s but %s is %s", fn, strings.TrimSpace(mdoc), rs[0], e.yaml, map[string]string{"min": "smaller", "max": "larger"}[fn])
+						}
+					}
+				}
+				res.Tags = append(res.Tags, "minmax_with_nulls")
+			}
 		}
 		res.Verdict, res.Detail = mon.Held, fmt.Sprintf("%d values compared pairwise", n)
 		return res
